@@ -123,6 +123,7 @@ var (
 func e2eCleanup() {
 	if e2eE != nil {
 		os.RemoveAll(e2eE.root)
+		e2eE, e2eErr, e2eOnce = nil, nil, sync.Once{}
 	}
 }
 
